@@ -82,13 +82,22 @@ def run(ctx):
     N = ctx.scale(12000, 100000)
     orders = list(itertools.permutations([0, 1, 2]))
     ALPHAS = [("chars", "ABC"), ("chars", "ABC"), ("words", ["ALA", "GLY", "SER"]), ("tuples", [(0, 1), (1, 0), (2, 2)]),
-              ("ints", [0, 1, 2])]
+              ("ints", [0, 1, 2]), ("floats", [0.5, 1.5, 2.5]), ("chars", "AB-")]
     for _ in range(N):
         l1, l2 = rng.randint(0, 8), rng.randint(0, 8)
         akind, alpha = rng.choice(ALPHAS)       # symbols need not be single characters
         ctx.count("alphabet:" + akind)
         s1 = [rng.choice(alpha) for _ in range(l1)]
         s2 = [rng.choice(alpha) for _ in range(l2)]
+        fresh = None
+        if akind != "chars" and rng.random() < 0.5:
+            # equal symbols need not be the *same object*: rebuild every occurrence (large ints, floats and tuples are
+            # not interned), so matching must go by equality
+            fresh = {"words": lambda v: "".join(list(v)), "tuples": lambda v: tuple(list(v)), "ints": lambda v: int(str(1000 + v)),
+                     "floats": lambda v: float(repr(v))}[akind]
+            ctx.count("fresh_symbol_objects")
+        # the marker used for gaps in the reconstructed alignment is the caller's choice
+        GAP = rng.choice(["-", "-", ".", None, 0 if akind not in ("ints",) else -7])
         if rng.random() < 0.3 and l1:
             s2 = list(s1)
             for _k in range(rng.randint(0, 2)):
@@ -97,6 +106,16 @@ def run(ctx):
                 else:
                     s2.insert(rng.randint(0, len(s2)), rng.choice(alpha))
         form = rng.choice(["str", "list", "tuple"]) if akind == "chars" else rng.choice(["list", "tuple"])
+        if fresh is not None:
+            if akind == "ints":
+                alpha = [1000, 1001, 1002]
+            s1 = [fresh(v) for v in s1]
+            s2 = [fresh(v) for v in s2]
+        if akind == "chars" and "-" in alpha and GAP == "-":
+            GAP = "."
+
+        def isgap(x, _g=GAP):
+            return x is _g or (type(x) is type(_g) and x == _g)
         a = "".join(s1) if form == "str" else (list(s1) if form == "list" else tuple(s1))
         b = "".join(s2) if form == "str" else (list(s2) if form == "list" else tuple(s2))
         mode = rng.choice(["default", "dict_max", "dict_min", "gap_only"])
@@ -143,7 +162,7 @@ def run(ctx):
             continue
         for order in ([None] + [list(o) for o in rng.sample(orders, 2)]):
             try:
-                p, s1a, s2a = alignment.best_alignment(paths, a, b, gap="-", order=order)
+                p, s1a, s2a = alignment.best_alignment(paths, a, b, gap=GAP, order=order)
             except Exception as e:
                 ctx.violation("exception", fn="best_alignment", order=order, error=repr(e)[:300], **wit)
                 continue
@@ -151,12 +170,12 @@ def run(ctx):
             bad = None
             if len(s1a) != len(s2a):
                 bad = "aligned sequences differ in length"
-            elif [x for x in s1a if x != "-"] != s1 or [x for x in s2a if x != "-"] != s2:
+            elif [x for x in s1a if not isgap(x)] != s1 or [x for x in s2a if not isgap(x)] != s2:
                 bad = "removing the gaps does not give back the inputs"
-            elif any(x == "-" and y == "-" for x, y in zip(s1a, s2a)):
+            elif any(isgap(x) and isgap(y) for x, y in zip(s1a, s2a)):
                 bad = "a gap is aligned with a gap"
             else:
-                sc = sum((-gap if (x == "-" or y == "-") else score_pair(x, y, matrix, modifier)) for x, y in zip(s1a, s2a))
+                sc = sum((-gap if (isgap(x) or isgap(y)) else score_pair(x, y, matrix, modifier)) for x, y in zip(s1a, s2a))
                 if abs(sc - float(value)) > tol_:
                     bad = "alignment score %r differs from the returned value %r" % (sc, float(value))
             if bad:
